@@ -488,10 +488,10 @@ namespace {
       executeOnce(c, s);
       return;
     }
-    if (failuresSeen[c.sub()] != 0 && ++shrinkExecutions[c.sub()] > 60) return;
+    if (failuresSeen[c.sub()] != 0 && ++shrinkExecutions[c.sub()] > 50) return;
     // shrinking selects among many candidates: a stricter confirmation keeps
     // it from drifting to scripts that fail only often
-    const int needed = failuresSeen[c.sub()] != 0 ? 10 : 4;
+    const int needed = failuresSeen[c.sub()] != 0 ? 6 : 4;
     for (int attempt = 0;; ++attempt) {
       try {
         executeOnce(c, s);
